@@ -352,7 +352,7 @@ FUZZ = {"basis": ("basis", basis_cases), "from_string": ("from_string", string_c
 
 def run(acc, tier):
     engine.pmap(acc, shard_identity, extra=((50, 1500, 5000) if tier == "quick" else (50, 1500, 5000, 45000),))
-    engine.pmap(acc, shard_pairs_light, extra=(((2, 5), (3, 5), (4, 5), (3, 6)) if tier == "quick" else ((3, 5), (4, 5), (3, 6), (4, 6), (5, 6), (3, 7), (4, 7)),))
+    engine.pmap(acc, shard_pairs_light, extra=(((2, 5), (3, 5), (4, 5), (3, 6), (4, 6), (5, 6), (6, 7)) if tier == "quick" else ((3, 5), (4, 5), (3, 6), (4, 6), (5, 6), (3, 7), (4, 7), (5, 7), (6, 7), (7, 8)),))
     if tier == "quick":
         engine.pmap(acc, shard_small_classical, extra=(3, 2))
         engine.pmap(acc, shard_small_mesh, extra=(3,))
